@@ -66,7 +66,8 @@ for pid in sorted(os.listdir(SRC)):
             continue
         extra = {"C02-2": ["C08"], "C01-1": ["C19"], "C18-2": ["C05"], "C03-1": ["C12"],
                  "C12-3": ["C03"], "C18-3": ["C05", "C03"], "C04-4": ["C10"], "C10-4": ["C04"], "C19-4": ["C07"], "C09-3": ["C05"], "C03-4": ["C12"],
-                 "C01-6": ["C16"], "C02-5": ["C08"], "C03-5": ["C12"], "C09-5": ["C12"], "C15-6": ["C05"], "C12-5": ["C03"], "C10-6": ["C06"], "C05-6": ["C15"], "C20-6": ["C17"], "C17-6": ["C13", "C01"], "C16-6": ["C17"], "C19-6": ["C07"]}.get(sid, [])
+                 "C01-6": ["C16"], "C02-5": ["C08"], "C03-5": ["C12"], "C09-5": ["C12"], "C15-6": ["C05"], "C12-5": ["C03"], "C10-6": ["C06"], "C05-6": ["C15"], "C20-6": ["C17"], "C17-6": ["C13", "C01"], "C16-6": ["C17"], "C19-6": ["C07"],
+                 "C01-7": ["C07"], "C10-7": ["C04"], "C13-8": ["C17"], "C12-8": ["C15"], "C17-7": ["C15", "C05"], "C17-8": ["C04"], "C03-7": ["C05"], "C07-8": ["C15"]}.get(sid, [])
         det, err = detect(os.path.join(d, "patch.diff"), [pid] + extra)
         if err:
             summary.append((sid, err))
